@@ -99,6 +99,8 @@ def gen(item, rng, tier):
         # unique, attributable write values
         val = ((i + 1) * 0x0101010101010101 ^ rng.getrandbits(64)) & ((1 << (8 * size)) - 1)
         ops.append({'op': rng.choice(['r', 'w', 'w']), 'path': path, 'addr': addr, 'size': size, 'value': val})
+        if path == 'hub' and rng.random() < 0.3:
+            ops[-1]['ns'] = 1          # the Non-secure attribute of the descriptor is not part of the address
         if path in ('mem_a', 'mem_u') or (path == 'insn' and size in (2, 4)):
             ops[-1]['be'] = int(rng.random() < 0.15)           # CPSR.E=1: the same bytes, most significant first
         if path == 'insn' and size == 4 and not ops[-1].get('be') and addr + 16 <= 0x100000000 and rng.random() < 0.25:        # (address wrap inside LDM/STM is an instruction matter, C03)
@@ -293,6 +295,7 @@ def run(case):
             if path == 'hub':
                 desc = AddressDescriptor()
                 desc.paddress.physicaladdress = addr
+                desc.paddress.ns = op.get('ns', 0)
                 if op['op'] == 'r':
                     got = arm.mem[desc, size]
                 else:
